@@ -136,7 +136,12 @@ def run_jobs(jobs, ncpu, repo, wall_s, stop_on_violation=True):
 
 
 def make_jobs(prop, tier, batch_seed, n_runs, out_dir, deadline_s, excluded,
-              want_digests=False, groups=None, shrink_wall_s=60):
+              want_digests=False, groups=None, shrink_wall_s=60, only_seed=None):
+    if only_seed is not None:
+        args = {'prop': prop, 'tier': tier, 'group': 0, 'runs': [(0, int(only_seed))], 'out_dir': out_dir,
+                'deadline_s': deadline_s, 'excluded': sorted(excluded), 'want_digests': want_digests,
+                'shrink_wall_s': shrink_wall_s}
+        return [(0, hashseed_for(batch_seed, 0), args)]
     G = groups or GROUPS[tier]
     G = max(1, min(G, n_runs))
     jobs = []
@@ -254,7 +259,7 @@ def confirm_known(prop, repo):
     return lines, viols
 
 
-def cmd_check(prop, tier, repo, batch_seed, runs=None, quiet=False, wall=None):
+def cmd_check(prop, tier, repo, batch_seed, runs=None, quiet=False, wall=None, only_seed=None):
     world_cls = worlds.load(prop)
     t0 = time.monotonic()
     no_evidence = bool(os.environ.get('SIMLAB_NO_EVIDENCE'))
@@ -263,12 +268,13 @@ def cmd_check(prop, tier, repo, batch_seed, runs=None, quiet=False, wall=None):
     os.makedirs(out_dir, exist_ok=True)
     n_runs = runs or world_cls.RUNS[tier]
     wall_s = wall or world_cls.WALL[tier]
-    excluded = excluded_for(prop)
+    excluded = [] if os.environ.get('SIMLAB_NO_EXCLUDE') else excluded_for(prop)
     ncpu = min(16, os.cpu_count() or 1)
     print('simlab %s tier=%s VERIF_SEED=%d runs=%d groups=%d cpus=%d repo=%s excluded=%s' % (
         prop, tier, batch_seed, n_runs, min(GROUPS[tier], n_runs), ncpu, repo, excluded))
     sys.stdout.flush()
-    jobs = make_jobs(prop, tier, batch_seed, n_runs, out_dir, wall_s, excluded)
+    jobs = make_jobs(prop, tier, batch_seed, n_runs, out_dir, wall_s, excluded, only_seed=only_seed)
+    no_evidence = no_evidence or only_seed is not None
     results, errors = run_jobs(jobs, ncpu, repo, wall_s + 240)
     m = merge(results)
     violations = []
@@ -381,6 +387,7 @@ def main():
     ap.add_argument('--wall', type=int)
     ap.add_argument('--repo', default=os.environ.get('SIMLAB_REPO', '/repo'))
     ap.add_argument('--mutant')
+    ap.add_argument('--run-seed', type=int, help='execute exactly one generated run (no evidence written)')
     a = ap.parse_args()
     os.makedirs(OUT, exist_ok=True)
     seed = int(os.environ.get('VERIF_SEED', DEFAULT_SEED))
@@ -399,7 +406,7 @@ def main():
         return 2
     if a.replay:
         return cmd_replay(a.prop, a.replay, a.repo)
-    return cmd_check(a.prop, a.tier, a.repo, seed, a.runs, wall=a.wall)
+    return cmd_check(a.prop, a.tier, a.repo, seed, a.runs, wall=a.wall, only_seed=a.run_seed)
 
 
 if __name__ == '__main__':
